@@ -120,9 +120,12 @@ def add_timer(timer_name: str):
         @functools.wraps(func)
         def wrapper(*args, **kwargs):
             timer.start(timer_name)
-            value = func(*args, **kwargs)
-            timer.stop(timer_name)
-            return value
+            try:
+                return func(*args, **kwargs)
+            finally:
+                # Also when the function raises: a timer left running would make
+                # the next compilation in this process fail with a TimerError.
+                timer.stop(timer_name)
 
         return wrapper
 
